@@ -570,8 +570,10 @@ impl<'a> Gen<'a> {
                     n
                 };
                 let keyvars = self.vars_of(|s| matches!(s, Shape::Str | Shape::Key | Shape::Num | Shape::Idx));
-                let key = match self.rng.below(4) {
+                let key = match self.rng.below(5) {
                     0 => Val::Int(self.rng.below(3) as i64),
+                    // a string key with the text of a number key: both name one field of the map's JSON form
+                    4 => Val::Lit(format!("{}", self.rng.below(3))),
                     1 if !keyvars.is_empty() => Val::Var(self.rng.pick(&keyvars).name.clone()),
                     _ => Val::Lit(format!("k{}", self.rng.below(3))),
                 };
